@@ -1186,6 +1186,12 @@ func (g *g) caseStmt() node {
 	}
 	c := caseClause{word: w}
 	n := g.n(1, 3, "nitems")
+	// one case statement in four is about its terminators: more items, and
+	// ;; ;& ;;& equally likely, so that they follow one another
+	heavy := g.pct(25, "caseheavy")
+	if heavy {
+		n = g.n(3, 5, "nitemsheavy")
+	}
 	for i := 0; i < n; i++ {
 		p := g.pick(casePats, "cpat")
 		if g.pct(25, "altpat") {
@@ -1197,6 +1203,9 @@ func (g *g) caseStmt() node {
 		op := ";;"
 		if g.pct(8, "fall") {
 			op = g.pick([]string{";&", ";;&"}, "caseop")
+		}
+		if heavy {
+			op = g.pick([]string{";;", ";&", ";;&"}, "caseopheavy")
 		}
 		c.items = append(c.items, caseItem{p, g.nested(1, 2, false), op})
 	}
